@@ -54,6 +54,17 @@ type vsa struct {
 	typeOfIn types.Type
 	reenter  *ssa.BasicBlock                      // edges into this block (the loop header) leave the region
 	onInstr  func(in ssa.Instruction, set []bool) // observer for side effects
+	// inline evaluation of helpers of the same package (loop-free, called with the values of this run): their
+	// instructions are evaluated — and observed — as if written at the call site
+	inlineHelpers bool
+	noInline      map[*ssa.Function]bool
+	depth         int
+	startSet      []bool // points active at the entry (nil: all)
+	startCell     []aval // cell contents at the entry (nil: the domain values)
+	// subObserver makes the observer for an inlined helper and a function that commits what it saw
+	subObserver func(call *ssa.Call, g *ssa.Function) (func(in ssa.Instruction, set []bool), func())
+	tuples      map[ssa.Value][][]aval      // per tuple-valued call: result index -> per-point values
+	callRets    map[*ssa.Call][]*ssa.Return // per inlined call: the return each point took
 }
 
 // valueAt returns the abstract value of v at point k after run().
@@ -121,6 +132,12 @@ func (a *vsa) run() {
 		all[i] = true
 		cell0[i] = aval{true, a.dom[i]}
 	}
+	if a.startSet != nil {
+		all = append([]bool(nil), a.startSet...)
+	}
+	if a.startCell != nil {
+		cell0 = append([]aval(nil), a.startCell...)
+	}
 	inSet[a.entry] = all
 	from[a.entry] = make([]*ssa.BasicBlock, n)
 	cellIn[a.entry] = cell0
@@ -171,6 +188,14 @@ func (a *vsa) run() {
 		for _, ins := range b.Instrs {
 			if v, ok := ins.(ssa.Value); ok && isPreset(v) {
 				continue
+			}
+			if cl, ok := ins.(*ssa.Call); ok && a.inlineHelpers {
+				if a.inlineCall(cl, set, cell, get) {
+					if a.err != "" {
+						return
+					}
+					continue // evaluated and observed instruction by instruction
+				}
 			}
 			if a.onInstr != nil {
 				a.onInstr(ins, set)
@@ -369,6 +394,9 @@ func (a *vsa) run() {
 					}
 				}
 			case *ssa.Extract:
+				if tv, ok := a.tuples[x.Tuple]; ok && x.Index < len(tv) {
+					a.vals[x] = tv[x.Index]
+				}
 				if lk, ok := x.Tuple.(*ssa.Lookup); ok && lk.CommaOk {
 					if x.Index == 1 {
 						a.vals[x] = a.vals[lk]
@@ -436,11 +464,104 @@ func (a *vsa) run() {
 		}
 	}
 	for k := 0; k < n; k++ {
-		if a.exits[k].kind == "" {
+		if a.exits[k].kind == "" && (a.startSet == nil || a.startSet[k]) {
 			a.err = fmt.Sprintf("input %d reaches no exit", a.dom[k])
 			return
 		}
 	}
+}
+
+// inlineCall evaluates a call of a loop-free helper of the same package on the points in set as if its body stood at
+// the call site: parameters take the argument values, a pointer to the designated cell stays the cell, its effects
+// are observed, its results become the call's value(s); points on which it panics leave through a panic.
+func (a *vsa) inlineCall(x *ssa.Call, set []bool, cell []aval, get func(ssa.Value, int) aval) bool {
+	g := x.Call.StaticCallee()
+	if g == nil || g.Blocks == nil || g.Pkg != a.f.Pkg || g == a.f || a.depth >= 2 || x.Call.IsInvoke() || len(g.Params) != len(x.Call.Args) {
+		return false
+	}
+	if nm := g.Name(); nm == "" || (nm[0] >= 'A' && nm[0] <= 'Z') || symNoInline[g] || a.noInline[g] {
+		return false
+	}
+	if _, ok := topo(g.Blocks[0], func(*ssa.BasicBlock) bool { return true }); !ok {
+		return false
+	}
+	n := len(a.dom)
+	sub := &vsa{c: a.c, f: g, dom: a.dom, entry: g.Blocks[0], sliceTab: a.sliceTab, mapKeys: a.mapKeys, mapVals: a.mapVals,
+		depth: a.depth + 1, startSet: append([]bool(nil), set...), preset: map[ssa.Value][]aval{}}
+	for v, t := range a.preset {
+		sub.preset[v] = t
+	}
+	cellParam := -1
+	for i, p := range g.Params {
+		t := make([]aval, n)
+		for k := 0; k < n; k++ {
+			if set[k] {
+				t[k] = get(x.Call.Args[i], k)
+			}
+		}
+		sub.preset[p] = t
+		if a.isCell != nil && a.isCell(x.Call.Args[i]) {
+			cellParam = i
+		}
+	}
+	if cellParam >= 0 {
+		par := g.Params[cellParam]
+		sub.isCell = func(addr ssa.Value) bool { return addr == ssa.Value(par) }
+		sub.startCell = append([]aval(nil), cell...)
+	}
+	commit := func() {}
+	if a.subObserver != nil {
+		sub.onInstr, commit = a.subObserver(x, g)
+	}
+	sub.run()
+	if sub.err != "" {
+		if sub.errValue != nil {
+			// a branch inside the helper needs a value the domain does not determine: report it upwards
+			a.err, a.errValue = sub.err, sub.errValue
+			return true
+		}
+		return false
+	}
+	commit()
+	nres := g.Signature.Results().Len()
+	res := make([][]aval, nres)
+	for i := range res {
+		res[i] = make([]aval, n)
+	}
+	rets := make([]*ssa.Return, n)
+	for k := 0; k < n; k++ {
+		if !set[k] {
+			continue
+		}
+		e := sub.exits[k]
+		switch e.kind {
+		case "return":
+			for i := 0; i < nres && i < len(e.result); i++ {
+				res[i][k] = e.result[i]
+			}
+			rets[k] = e.ret
+			if cellParam >= 0 {
+				cell[k] = e.cell
+			}
+		case "panic":
+			a.exits[k] = vsaExit{kind: "panic", cell: e.cell}
+			set[k] = false
+		}
+	}
+	if nres == 1 {
+		a.vals[x] = res[0]
+	} else if nres > 1 {
+		if a.tuples == nil {
+			a.tuples = map[ssa.Value][][]aval{}
+		}
+		a.tuples[x] = res
+	}
+	if a.callRets == nil {
+		a.callRets = map[*ssa.Call][]*ssa.Return{}
+	}
+	a.callRets[x] = rets
+	a.stores = append(a.stores, sub.stores...)
+	return true
 }
 
 // vsaStore records a store through base[idx] with its per-point index and value.
